@@ -17,7 +17,7 @@ SPEC = os.path.join(VERIF, "spec")
 BUILD = os.path.join(VERIF, ".build")
 JAR = "/opt/veriftools/tla/tla2tools.jar"
 CM = "/opt/veriftools/tla/CommunityModules-deps.jar"
-NCPU = os.cpu_count() or 4
+NCPU = int(os.environ.get("FA_NPROC", "0")) or os.cpu_count() or 4
 
 _workdir = None
 
